@@ -253,11 +253,13 @@ package machine
 //@ axiom groups("^([0-9]+)(?:[.]([0-9]+))?[%]$") == 2
 //@ axiom groups("^([0-9]+)\\s?[/]\\s?([0-9]+)$") == 2
 //@ axiom groups("balance\\[(.*)]") == 1
+//@ axiom groups("^balance\\[(.*)]$") == 1
 //@ axiom groups("metadata\\[(.+)]") == 1
 //@ axiom groups("features\\[(.+)]") == 1
 
+//@ declare pat(re *regexp.Regexp) string
 //@ assumed func regexp.MustCompile(str string) (r *regexp.Regexp)
-//@   ensures r != nil && nsub(r) == groups(str)
+//@   ensures r != nil && nsub(r) == groups(str) && pat(r) == str
 
 //@ assumed func (re *regexp.Regexp) FindStringSubmatch(s string) (r []string)
 //@   ensures len(r) == 0 || len(r) == 1 + nsub(re)
